@@ -301,7 +301,12 @@ func (fr *Frame) callSiteChecks(st *State, cc *ssa.CallCommon, args []Term, in s
 		blk := in.Block()
 		env.lookup = func(nm string) (SpecVal, bool) { return fr.lookupLocal(nm, blk, st, nil) }
 		for i, nm := range names {
-			env.vars[nm] = SpecVal{T: all[i], Ty: tys[i]}
+			// positional names always; the callee's parameter name only if it does not
+			// hide a parameter of the enclosing function
+			env.vars[fmt.Sprintf("$%d", i)] = SpecVal{T: all[i], Ty: tys[i]}
+			if _, clash := env.vars[nm]; !clash {
+				env.vars[nm] = SpecVal{T: all[i], Ty: tys[i]}
+			}
 		}
 		t, err := env.EvalBool(cs.Clause.E)
 		if err != nil {
@@ -597,6 +602,7 @@ func (vc *VC) havocModifies(st *State, env *SpecEnv, mods []*Expr) error {
 		old := vc.heap(st, s)
 		nh := vc.MixHeap(s, old, Term{fmt.Sprintf("(not (or %s false))", strings.Join(per[s], " ")), SBool})
 		st.heaps[s] = nh
+		st.touch(s)
 		vc.heapReg[s] = true
 	}
 	return nil
@@ -621,6 +627,7 @@ func (vc *VC) copyRange(st *State, elem types.Type, dst, src Term, n Term) {
 		from := Select(old, MkRef(Rid(src), Add(Roff(src), Sub(Roff(q), Roff(dst)))))
 		nh := vc.LambdaHeap("hc", s, Ite(inDst, from, Select(old, q)))
 		st.heaps[s] = nh
+		st.touch(s)
 		vc.heapReg[s] = true
 	}
 }
@@ -780,6 +787,7 @@ func (vc *VC) havocRegion(st *State, elem types.Type, dst Term, n Term) {
 		inDst := And(Eq(Rid(q), Rid(dst)), Le(Roff(dst), Roff(q)), Lt(Roff(q), Add(Roff(dst), size)))
 		nh := vc.MixHeap(s, old, Not(inDst))
 		st.heaps[s] = nh
+		st.touch(s)
 		vc.heapReg[s] = true
 	}
 }
